@@ -92,3 +92,10 @@ CASES += [
     {"name": "level energy taken from the public getter, converted once", "kind": "twin", "edits": [
         (_AS, _EN, "            self.aggregate.monomers[k].get_energy(nn)\n", 1)]},
 ]
+
+CASES += [
+    {"name": "molecule to be removed is looked up by its name (seeded change of round 7)", "kind": "mutant", "rule": "C03-K", "edits": [
+        ("quantarhei/builders/aggregate_base.py", "        im = self.monomers.index(mono)\n        self.monomers.remove(mono)", "        im = self.get_Molecule_index(mono.name)\n        self.monomers.remove(mono)", 1)]},
+    {"name": "molecule to be removed is looked up in the table of names", "kind": "mutant", "rule": "C03-K", "edits": [
+        ("quantarhei/builders/aggregate_base.py", "        im = self.monomers.index(mono)\n        self.monomers.remove(mono)", "        im = self.mnames[mono.name]\n        self.monomers.remove(mono)", 1)]},
+]
